@@ -719,6 +719,9 @@ class Session:
             if "data" in doc:
                 f.violation("workspace-divergence:%s:evaluable-although-not-deployed" % via, "echo on E answered %r although E is not deployed" % resp.body[:200], self.log, "errors", resp.brief())
             return
+        if "errors" in doc and "not deployed" in doc["errors"][0]["details"]:
+            f.violation("workspace-divergence:%s:deployed-model-not-evaluable" % via, "%s of E/%s answered %r, deployed %s" % (via, dec, resp.body[:200], sorted(self.model.evaluators)), self.log, "a result", resp.brief())
+            return
         if "errors" in doc:
             f.violation("echo-rejected:%s" % tag, "%s of E/%s with a %s value answered %r" % (via, dec, cls, resp.body[:300]), mini, repr(want), resp.brief())
             return
